@@ -200,8 +200,8 @@ class Machine:
             wt = types[n["t"]]["w"]
             if name == "verify":
                 return None, T.not_(inp)
-            if self.interpret:
-                model = J.MODELS.get(name)
+            model = J.model_for(name, self.interpret)
+            if True:
                 if model is not None:
                     out = model(inp)
                     assert (out.w if out is not None else 0) == wt, (name, wt)
